@@ -654,6 +654,7 @@ def blank_cfg(src: str, cfg) -> str:
                         j += 1
                 start = j
                 blank(k + 1, start)     # further attributes of the disabled element go with it
+                is_item = bool(re.match(r'(pub(\s*\([^)]*\))?\s+)?(unsafe\s+|async\s+|const\s+|extern\s+"[^"]*"\s+)*(fn|impl|trait|mod)\b', m[start:start + 80]))
                 while j < n:
                     c = m[j]
                     if c in '([{':
@@ -668,6 +669,10 @@ def blank_cfg(src: str, cfg) -> str:
                             # a block ends an item; for `let x = { .. };` the ';' follows and was handled above
                             if not re.match(r'\s*let\b', m[start:start + 6]):
                                 break
+                        continue
+                    if c == ',' and is_item:
+                        # the comma of a `where` clause / generic list of an item header is not the end of the item
+                        j += 1
                         continue
                     if c in ',;':
                         j += 1
